@@ -22,7 +22,8 @@ SPEC = {
              "dataflows were executed; distinct = distinct case."),
     "shards": {"quick": 16, "thorough": 16},
     "min_counts": {"quick": {"evaluations": 150, "kernel_runs": 4000, "leaf_bodies": 20000, "tiled_runs": 1000,
-                             "lf_runs": 1000, "uformat_runs": 300, "estimated_shape_runs": 300, "div_tiled_runs": 500}},
+                             "lf_runs": 1000, "uformat_runs": 300, "estimated_shape_runs": 300, "div_tiled_runs": 500,
+                             "float_value_runs": 500, "lf_three_on_one_rank_runs": 200}},
     "assumptions": [
         "integer payloads, leaf default 0 (the idiom's zero-product filter is defined for 0)",
         "each index variable is tiled at most once (two-level tilings of one rank are not generated); no halos",
@@ -34,11 +35,19 @@ SPEC = {
 
 def generate(rng, tier, shard, nshards, mon):
     n = (640 if tier == "quick" else 6000) // nshards
-    fams = kernels.FAMILIES
+    fams = kernels.FAMILIES + kernels.FAMILIES3
     for i in range(n):
         fam = fams[(i * nshards + shard) % len(fams)] if i < 2 * len(fams) else rng.choice(fams)
         spec = kernels.rand_spec(rng, family=fam, tiles=False)
         vs = kernels.variables(spec)
+        if rng.random() < 0.2:
+            # non-integer values (dyadic rationals: every sum and product is exact in binary floating point)
+            sc = rng.choice([0.5, 0.25, 1.5])
+
+            def scale(x):
+                return [scale(y) for y in x] if isinstance(x, list) else x * sc
+            spec["vals"] = {k: scale(v) for k, v in spec["vals"].items()}
+            spec["float_values"] = True
         r = rng.random()
         if r < 0.2:
             spec["noshape"] = True          # operands whose shapes are estimates
@@ -104,6 +113,10 @@ def run_case(case, mon):
                         mon.count("tiled_runs")
                     if divs[ti]:
                         mon.count("div_tiled_runs")
+                    if base.get("float_values"):
+                        mon.count("float_value_runs")
+                    if style == "leader-follower" and max(len([n for n, idx in base["ops"] if v in idx]) for v in kernels.variables(base)) >= 3:
+                        mon.count("lf_three_on_one_rank_runs")
                     if base.get("fmts"):
                         mon.count("uformat_runs")
                     if base.get("noshape"):
